@@ -19,7 +19,7 @@ TRUSTED = ["Lean 4 kernel", "axioms: propext, Quot.sound, Classical.choice (at m
            "the scripts exercise one interleaving per history), that a read holds its slot exactly while the reader runs"]
 ASSUMPTIONS = ["quiescence is detected by a stable limiter length (a slow machine can only make a script inconclusive, never wrong: see flake policy in DESIGN)"]
 RULE = ("seeded histories over 1..6 reads and capacity 1..3: starts beyond the capacity (queueing), cancels of waiting / holding / finished "
-        "reads, file ends in any order; every history is replayed on the real code; non-trivial = the history contains a cancel or fills the limiter")
+        "reads, file ends in any order; every history is replayed on the real code; non-trivial = the history contains a cancel or fills the limiter; glob sessions: ONE command whose glob matches several files, ended while other sessions hold or wait for slots")
 
 
 TAIL_BUDGET = {"quick": 10, "thorough": 120}
